@@ -225,6 +225,13 @@ impl<S: Storage> Builder<S> {
                 let columns = (self.node(list).as_list().iter())
                     .map(|id| self.node(*id).as_column())
                     .collect_vec();
+                // A range condition pushed into the scan may have been folded to FALSE / NULL
+                // (e.g. `k > 5 AND k < 5`): it selects no row.
+                let filter_is_false = matches!(
+                    self.node(filter),
+                    Constant(crate::types::DataValue::Bool(false))
+                        | Constant(crate::types::DataValue::Null)
+                );
                 // analyze range filter
                 let filter = {
                     use std::ops::Bound;
@@ -245,7 +252,9 @@ impl<S: Storage> Builder<S> {
                     }
                 };
 
-                if let Some(subscriber) = self.views.get(&table_id) {
+                if filter_is_false {
+                    futures::stream::empty().boxed()
+                } else if let Some(subscriber) = self.views.get(&table_id) {
                     // scan a view
                     assert!(
                         filter.is_none(),
